@@ -2,10 +2,10 @@
 # eval_seed.sh <ID> [tier] — confirm a seeded change (suite passes, demo fails with / passes without) in a scratch
 # worktree, then run ./check <ID> against /repo with the change applied, and undo it.
 ID="$1"; TIER="${2:-quick}"
-SRC=/tmp/seed/out/$ID
+SRC=${SEED_SRC:-/tmp/seed/out}/$ID
 export GOFLAGS=-mod=mod GOPROXY=off GOSUMDB=off GOTOOLCHAIN=auto
 [ -f $SRC/patch.diff ] || { echo "no patch for $ID"; exit 2; }
-WT=/tmp/seed/verify-$ID
+WT=/tmp/seed/verify-$(basename ${SEED_SRC:-out})-$ID
 git -C /repo worktree remove --force $WT 2>/dev/null
 git -C /repo worktree add -q --detach $WT HEAD || exit 2
 DEMO_PATH=$(python3 -c "import json;print(json.load(open('$SRC/meta.json')).get('demo_path',''))")
@@ -30,6 +30,7 @@ cd /; git -C /repo worktree remove --force $WT
 # run the check against a separate checkout with the change applied (VERIF_REPO; /repo itself stays untouched)
 R2=${SEED_REPO:-/tmp/seed/repo2}; V2=${SEED_VERIF:-/tmp/seed/verif2}
 git -C $R2 checkout -q -- . ; git -C $R2 clean -fdq
+git -C $R2 checkout -q --detach $(git -C /repo rev-parse HEAD)
 cd $R2 && git apply $SRC/patch.diff || { res "apply_to_repo2=false"; exit 4; }
 cd $V2 && VERIF_REPO=$R2 ./check $ID $TIER > $SRC/check_$TIER.log 2>&1; rc=$?
 git -C $R2 checkout -q -- . ; git -C $R2 clean -fdq
